@@ -76,6 +76,18 @@ class CountingSource(object):
         return cm()
 
 
+class _DictIter(object):
+    """a re-iterable container of dicts drawn lazily from a counting table"""
+    def __init__(self, ct):
+        self.ct = ct
+
+    def __iter__(self):
+        it = iter(self.ct)
+        hdr = next(it)
+        for r in it:
+            yield dict(zip(hdr, r))
+
+
 def big_rows(seed, nsrc, n):
     """n data rows per source; the first rows are the same for every n (one PRNG stream per source)."""
     out = []
@@ -139,7 +151,9 @@ class C02(Prop):
         for fmt in ('csv', 'tsv', 'pickle', 'text', 'jsonl'):
             for _ in range(reps):
                 yield Case('lazy', ('extract', fmt, rng.randrange(1 << 20)))
-        for what in ('look', 'lookall_head', 'repr', 'head', 'islice', 'str_look_pipe'):
+        for nm in ('unpackdict', 'fromdicts', 'fromdicts:generator'):
+            yield Case('lazy', ('sample', nm, rng.randrange(1 << 20)))
+        for what in ('look', 'lookall_head', 'repr', 'head', 'islice', 'str_look_pipe', 'see', 'see_pipe'):
             yield Case('lazy', ('vis', what, rng.randrange(1 << 20)))
 
     def expand(self, case):
@@ -169,7 +183,11 @@ class C02(Prop):
             srcs = [e['prep'](t) for t in srcs]
         cts = [CountingTable(t) for t in srcs]
         before = [c.data_pulls for c in cts]
-        v = e['make'](cts)
+        given = cts
+        if seed % 2 == 1:
+            import petl as etl
+            given = [etl.wrap(c) for c in cts]     # petl views as inputs: bool() / len() of a view scans it
+        v = e['make'](given)
         if e['pick'] is not None:
             v = e['pick'](v)
         ctor = sum(c.data_pulls for c in cts) - sum(before)
@@ -309,16 +327,46 @@ class C02(Prop):
             list(etl.head(pipe, 5))
         elif what == 'islice':
             list(itertools.islice(pipe, 5))
+        elif what == 'see':
+            str(etl.see(src))
+        elif what == 'see_pipe':
+            repr(etl.see(pipe, limit=4))
         else:
             etl.look(pipe, limit=3).__repr__()
             lim = 3
         ok = src.pulls <= 2 * lim + 6
         return ok, ([] if ok else ['%s pulled %d rows of %d' % (what, src.pulls, BIG)]), []
 
+    def _check_sample(self, name, seed):
+        """operators with a documented sampling pass (default sample 1000): the pulls for the first rows are the sample
+        plus a constant, whatever the length of the source"""
+        import petl as etl
+        res = []
+        for n in (3000, 9000):
+            rows = big_rows(seed, 1, n)[0]
+            if name == 'unpackdict':
+                ct = CountingTable(catalogue.prep_dict_uneven(rows))
+                v = etl.unpackdict(ct, 'v')
+            elif name == 'fromdicts':
+                ct = CountingTable(rows)
+                v = etl.fromdicts(_DictIter(ct))
+            else:
+                ct = CountingTable(rows)
+                v = etl.fromdicts(d for d in _DictIter(ct))
+            ctor = ct.data_pulls
+            it = iter(v)
+            for _ in range(4):
+                next(it)
+            res.append((ctor, ct.pulls))
+        ok = res[0] == res[1] and res[0][0] == 0 and res[1][1] <= 1000 + 12
+        return ok, ([] if ok else ['%s: (construction, pulls for 4 rows) = %s for 3000 rows, %s for 9000 rows' % (name, res[0], res[1])]), []
+
     def impl(self, case):
         try:
             kind = case.arg[0]
-            if kind == 'op':
+            if kind == 'sample':
+                ok, notes, judged = self._check_sample(case.arg[1], case.arg[2])
+            elif kind == 'op':
                 ok, notes, judged = self._check_op(case.arg[1], case.arg[2])
             elif kind == 'pipe':
                 ok, notes, judged = self._check_pipe(case.arg[1], case.arg[2])
@@ -363,8 +411,10 @@ class C02(Prop):
                 return len(a) == 3 and 1 <= len(a[1]) <= 3 and all(n in names for n in a[1]) and isinstance(a[2], int)
             if a[0] == 'extract':
                 return a[1] in ('csv', 'tsv', 'pickle', 'text', 'jsonl') and len(a) == 3 and isinstance(a[2], int)
+            if a[0] == 'sample':
+                return a[1] in ('unpackdict', 'fromdicts', 'fromdicts:generator') and len(a) == 3 and isinstance(a[2], int)
             if a[0] == 'vis':
-                return a[1] in ('look', 'lookall_head', 'repr', 'head', 'islice', 'str_look_pipe') and len(a) == 3
+                return a[1] in ('look', 'lookall_head', 'repr', 'head', 'islice', 'str_look_pipe', 'see', 'see_pipe') and len(a) == 3
             return False
         except Exception:
             return False
